@@ -6,7 +6,7 @@
 (* without the JSON defaults.                                                *)
 EXTENDS APIValidate, SequencesExt
 
-CONSTANTS MaxOps, WithUpperCaseDesc, SmallSec
+CONSTANTS MaxOps, WithUpperCaseDesc, SmallSec, WithNoContent
 
 VARIABLES phase, desc, reg
 vars == <<phase, desc, reg>>
@@ -28,11 +28,15 @@ SecChoices == IF SmallSec THEN {NoSec, Sec(<<<<k, b>>>>)}
               ELSE {NoSec, Sec(<<<<k>>>>), Sec(<<<<k, b>>>>), Sec(<<<<k>>, <<b>>>>), Sec(<<<<>>>>), Sec(<<>>)}
 OpMediaChoices == {<<>>, <<X>>} \cup (IF WithUpperCaseDesc THEN {<<U>>} ELSE {})
 
-MethodPaths == { [method |-> get, path |-> pa, body |-> FALSE], [method |-> post, path |-> pa, body |-> TRUE],
-                 [method |-> get, path |-> pb, body |-> FALSE] }
+head == <<104,101,97,100>>
+MethodPaths == { [method |-> get, path |-> pa, body |-> FALSE, nocontent |-> FALSE], [method |-> post, path |-> pa, body |-> TRUE, nocontent |-> FALSE],
+                 [method |-> get, path |-> pb, body |-> FALSE, nocontent |-> FALSE] }
+               \cup (IF WithNoContent THEN { [method |-> get, path |-> pc, body |-> FALSE, nocontent |-> TRUE],
+                                             [method |-> head, path |-> pb, body |-> FALSE, nocontent |-> FALSE] } ELSE {})
 
-OpPool == UNION { { [method |-> mp.method, path |-> mp.path, body |-> mp.body, consumes |-> c, produces |-> p, sec |-> s] :
-                      c \in (IF mp.body THEN OpMediaChoices ELSE {<<>>, <<X>>}), p \in OpMediaChoices, s \in SecChoices } :
+OpPool == UNION { { [method |-> mp.method, path |-> mp.path, body |-> mp.body, nocontent |-> mp.nocontent, consumes |-> c, produces |-> p, sec |-> s] :
+                      c \in (IF mp.body THEN OpMediaChoices ELSE IF mp.nocontent \/ mp.method = head THEN {<<>>} ELSE {<<>>, <<X>>}),
+                      p \in (IF mp.nocontent \/ mp.method = head THEN {<<>>, <<X>>} ELSE OpMediaChoices), s \in SecChoices } :
                   mp \in MethodPaths }
 OpSeq == SetToSeq(OpPool)
 
